@@ -643,9 +643,7 @@ Definition to_plus (st : N) : list act * N :=
 Definition to_minus (st : N) : list act * N :=
   match st with
   | 6 | 7 | 8 => ([Scr], 3)      (* at least one retransmission happened before the counter ran out *)
-  | 4 => ([], 2)
-  | 5 => ([], 3)
-  | _ => ([], st)
+  | _ => ([], st)                (* Stopping is EvStoppingTimeout's; nothing runs a timer elsewhere *)
   end%N.
 
 Inductive sev :=
